@@ -136,8 +136,8 @@ pub fn run_c07(rep: &mut Report, thorough: bool) {
     }
     let o = BfsOpts {
         stage: "bfs-c07".into(),
-        max_depth: if thorough { 6 } else { 4 },
-        max_states: if thorough { 40000 } else { 6000 },
+        max_depth: if thorough { 10 } else { 8 },
+        max_states: if thorough { 300000 } else { 30000 },
         abstract_acc: true,
         differential: false,
     };
@@ -233,8 +233,8 @@ pub fn run_c08(rep: &mut Report, thorough: bool) {
     events.extend(noise_events());
     let o = BfsOpts {
         stage: "bfs-c08".into(),
-        max_depth: if thorough { 5 } else { 3 },
-        max_states: if thorough { 40000 } else { 4000 },
+        max_depth: if thorough { 7 } else { 5 },
+        max_states: if thorough { 300000 } else { 30000 },
         abstract_acc: true,
         differential: true,
     };
@@ -395,8 +395,8 @@ pub fn run_c09(rep: &mut Report, thorough: bool) {
     events.extend(noise_events());
     let o = BfsOpts {
         stage: "bfs-c09".into(),
-        max_depth: if thorough { 5 } else { 3 },
-        max_states: if thorough { 40000 } else { 4000 },
+        max_depth: if thorough { 7 } else { 5 },
+        max_states: if thorough { 300000 } else { 30000 },
         abstract_acc: true,
         differential: false,
     };
